@@ -141,6 +141,14 @@ func (s *objectStore) delete(o Object) {
 	}
 }
 
+// drop forgets all the objects of a given type
+func (s *objectStore) drop(of Object) {
+	s.Lock()
+	defer s.Unlock()
+
+	delete(s.m, stype(of))
+}
+
 func (s *objectStore) count(of Object) (n int) {
 	s.RLock()
 	defer s.RUnlock()
@@ -605,6 +613,12 @@ func (db *DB) Create(o Object, s Schema) (err error) {
 		// update existing schema with changes
 		if err = es.update(&s); err != nil {
 			return
+		}
+
+		// cached objects are not maintained while caching is disabled, they
+		// must not be served if caching gets enabled again later
+		if !es.mustCache() {
+			db.cache.drop(o)
 		}
 
 		return db.saveSchema(o, es, true)
